@@ -5,6 +5,8 @@ pub mod c03;
 pub mod c04;
 pub mod c07;
 pub mod c09;
+pub mod c10;
+pub mod c11;
 pub mod c13;
 pub mod c14;
 pub mod c15;
@@ -18,6 +20,8 @@ pub fn run(id: &str, tier: Tier, seed: u64) -> i32 {
         "C04" => c04::run(tier, seed),
         "C07" => c07::run(tier, seed),
         "C09" => c09::run(tier, seed),
+        "C10" => c10::run(tier, seed),
+        "C11" => c11::run(tier, seed),
         "C13" => c13::run(tier, seed),
         "C14" => c14::run(tier, seed),
         "C15" => c15::run(tier, seed),
@@ -36,6 +40,8 @@ pub fn replay(id: &str, case: &serde_json::Value) -> CaseResult {
         "C04" => c04::replay(case),
         "C07" => c07::replay(case),
         "C09" => c09::replay(case),
+        "C10" => c10::replay(case),
+        "C11" => c11::replay(case),
         "C13" => c13::replay(case),
         "C14" => c14::replay(case),
         "C15" => c15::replay(case),
